@@ -40,6 +40,7 @@ def configs(tier):
             cfgs.append({"name": f"marginal-direct-K{K}-{via}", "kind": "marginal", "K": K, "W": 3 if q else 4, "via": via})
             cfgs.append({"name": f"function-K{K}-{via}", "kind": "function", "K": K, "W": 3 if q else 4, "via": via})
         cfgs.append({"name": f"marginal-sampling-K1-{via}", "kind": "sampling", "K": 1, "W": 2, "n": 2, "via": via})
+    cfgs.append({"name": "marginal-direct-big-box", "kind": "bigbox", "via": "direct"})
     cfgs.append({"name": "marginal-sampling-K1-direct-n3", "kind": "sampling", "K": 1, "W": 3, "n": 3, "via": "direct"})
     cfgs.append({"name": "marginal-sampling-K2-direct", "kind": "sampling", "K": 2, "W": 2, "n": 2 if q else 3, "via": "direct"})
     if not q:
@@ -74,11 +75,14 @@ def make(ctx, cls, typ, params, via):
 
     warm_up(cls)
     if via == "direct":
-        return cls(params)
+        obj = cls(params)
+        warm_up(cls)  # ... and a later object of the same class must not change the one under test
+        return obj
     params = dict(params)
     params[JN.JOINT_DEGREE_TYPE] = JointDegreeType(typ) if via == "enum" else typ
     obj = JointDegreeDistribution.load_joint_degree(params)
     ctx.require(type(obj) is cls, "dispatch-equals-direct", f"dispatcher returned {type(obj).__name__} for type {typ!r}", twin=(type(obj) is not cls))
+    warm_up(cls)
     return obj
 
 
@@ -113,6 +117,7 @@ def path(ctx, cfg):
         given = dict(W)
         obj = ctx.guard("loader-raised", make, ctx, JointDegreeManual, "manual", {JN.JDD: given, JN.MOTIF_SIZES: [2, 3]}, via)
         jdd = obj.jdd
+        ctx.require(list(given.keys()) == keys and all_(eq(given[k], W[k]) for k in keys), "manual-identity", "the caller's dictionary was modified")
         ok = isinstance(jdd, dict) and list(jdd.keys()) == keys
         ctx.require(all_(eq(jdd[k], W[k]) for k in keys) if ok else False, "manual-identity", f"manual loader exposes {jdd} for keys {keys}",
                     twin=all_(eq(jdd[k], W[k] + 1) for k in keys) if ok else None)
@@ -132,6 +137,24 @@ def path(ctx, cfg):
         ctx.require(ok, "empirical-frequency", f"sequence {conc}: empirical distribution {jdd}",
                     twin=(set(jdd) == set(cnt) and all(close(jdd[t] * L, cnt[t] + 1) for t in cnt)))
         ctx.observe("jdd", sorted((list(k), v) for k, v in jdd.items()))
+        return
+    if kind == "bigbox":
+        # 320 x 321 cells with concrete marginals: still the exact normalised product on the full box, and no random draw in direct mode
+        f0 = lambda k: 1.0 / (1 + k)
+        f1 = lambda k: 0.5 + (k % 7)
+        params = {JN.MOTIF_SIZES: [2, 3], JN.ARR_FP: [f0, f1], JN.LOW_HIGH_DEGREE_BOUND: [(0, 320), (1, 322)]}
+        obj = ctx.guard("loader-raised", JointDegreeMarginal, params)
+        jdd = obj.jdd
+        ctx.require(len(ctx.rng_log) == 0, "marginal-support", f"direct mode drew random numbers: {[c['fn'] for c in ctx.rng_log][:5]}", sig="direct-mode-uses-rng")
+        n0, n1 = 320, 321
+        full = len(jdd) in (n0 * n1, (n0 + 1) * (n1 + 1)) and all(isinstance(k, tuple) and len(k) == 2 for k in jdd)
+        ctx.require(full, "marginal-support", f"big box: {len(jdd)} keys, expected {n0 * n1} (or {(n0 + 1) * (n1 + 1)})", sig="big-box-support")
+        if full:
+            hi0, hi1 = (320, 322) if len(jdd) == n0 * n1 else (321, 323)
+            Z = sum(f0(a) for a in range(0, hi0)) * sum(f1(b) for b in range(1, hi1))
+            probe = [(0, 1), (5, 9), (319, 321), (100, 200), (17, 1)]
+            bad = [k for k in probe if k not in jdd or not close(jdd[k] * Z, f0(k[0]) * f1(k[1]))]
+            ctx.require(not bad and close(sum(jdd.values()), 1.0), "marginal-product-law", f"big box: wrong values at {bad}; total {sum(jdd.values())}", sig="big-box-values")
         return
     K = cfg["K"]
     bnds = bounds(ctx, K, cfg["W"])
